@@ -261,17 +261,22 @@ func TestForkChoice(t *testing.T) {
 			c.NowSlot = c.CurSlot + rapid.IntRange(1, 2).Draw(t, "late")
 		}
 		c.LastRecvSlot = rapid.SampledFrom([]int{-1, c.LastSlot, c.LastSlot + 1}).Draw(t, "lastRecv")
-		// headers
+		// headers; the position of every instant inside its slot is drawn (a generator stamps its wall clock, a receiver's
+		// clock may be ahead of or behind it): the rule only looks at slot numbers
+		lastOff := uint32(rapid.IntRange(0, interval-1).Draw(t, "lastOffset"))
+		curOff := uint32(rapid.IntRange(0, interval-1).Draw(t, "curOffset"))
+		recvOff := int64(rapid.IntRange(0, interval-1).Draw(t, "lastRecvOffset"))
+		nowOff := uint32(rapid.IntRange(1, interval-30).Draw(t, "nowOffset"))
 		now := uint32(time.Now().Unix())
-		// now falls in the middle of slot NowSlot
-		genesisTS := now - uint32(c.NowSlot)*interval - interval/2
+		// now falls at offset nowOff of slot NowSlot
+		genesisTS := now - uint32(c.NowSlot)*interval - nowOff
 		slot := validator.NewBlockSlot(genesisTS, interval)
 		prevA, prevB := bytes.Repeat([]byte{1}, 32), bytes.Repeat([]byte{2}, 32)
 		last := &blockchain.BlockHeader{Version: 2, Height: c.LastH, MaxHeightPrevoted: c.LastP, PreviousBlockID: prevA,
-			GeneratorAddress: genA, Timestamp: genesisTS + uint32(c.LastSlot)*interval + 3, AggregateCommit: &blockchain.AggregateCommit{}}
+			GeneratorAddress: genA, Timestamp: genesisTS + uint32(c.LastSlot)*interval + lastOff, AggregateCommit: &blockchain.AggregateCommit{}}
 		last.Init()
 		cur := &blockchain.BlockHeader{Version: 2, Height: c.CurH, MaxHeightPrevoted: c.CurP, PreviousBlockID: prevB,
-			GeneratorAddress: genB, Timestamp: genesisTS + uint32(c.CurSlot)*interval + 7, AggregateCommit: &blockchain.AggregateCommit{}}
+			GeneratorAddress: genB, Timestamp: genesisTS + uint32(c.CurSlot)*interval + curOff, AggregateCommit: &blockchain.AggregateCommit{}}
 		if c.SamePrev {
 			cur.PreviousBlockID = prevA
 		}
@@ -282,7 +287,7 @@ func TestForkChoice(t *testing.T) {
 			cur.GeneratorAddress = genA
 		}
 		cur.Init()
-		c.SameID = false
+		c.SameID = bytes.Equal(last.ID, cur.ID) // every field drawn equal: the two headers are one and the same
 		if rapid.SampledFrom([]int{0, 1, 2, 3, 4, 5, 6, 7, 8, 9, 10, 11}).Draw(t, "identical") == 7 {
 			cur = last
 			c.SameID = true
@@ -293,7 +298,7 @@ func TestForkChoice(t *testing.T) {
 		}
 		var recv *time.Time
 		if c.LastRecvSlot >= 0 {
-			tm := time.Unix(int64(genesisTS)+int64(c.LastRecvSlot)*interval+interval/2, 0)
+			tm := time.Unix(int64(genesisTS)+int64(c.LastRecvSlot)*interval+recvOff, 0)
 			recv = &tm
 		}
 		fc, err := forkchoice.NewForkChoice(last, cur, slot, recv)
@@ -345,7 +350,13 @@ func TestForkChoice(t *testing.T) {
 		if forkchoice.IsDifferentChain(c.LastP, c.CurP, c.LastH, c.CurH) != want["differentchain"] {
 			t.Fatalf("IsDifferentChain mismatch %+v", c)
 		}
-		evid.R.Case(fmt.Sprintf("fc|%+v", c), nTrue >= 2, func() any { return map[string]any{"kind": "forkchoice", "case": c, "class": cls} }, "fc", "fc-"+cls)
+		early := "received-at-or-after-timestamp"
+		if nowOff < curOff && c.NowSlot == c.CurSlot || c.LastRecvSlot == c.LastSlot && uint32(recvOff) < lastOff {
+			early = "received-in-slot-before-timestamp"
+		}
+		evid.R.Case(fmt.Sprintf("fc|%+v|%d,%d,%d,%d", c, lastOff, curOff, recvOff, nowOff), nTrue >= 2, func() any {
+			return map[string]any{"kind": "forkchoice", "case": c, "class": cls, "offsets": []int64{int64(lastOff), int64(curOff), recvOff, int64(nowOff)}}
+		}, "fc", "fc-"+cls, early)
 	})
 }
 
